@@ -33,9 +33,9 @@ exited 1 with a `VIOLATION property=<id> replay=<file>` line whose replay file h
 concrete failing input for the real code. The full table with the complete descriptions
 and what each change needs to manifest is `seeded/TABLE.md`.
 
-Seven rounds were run. Round 1 (ids ending in a / b / c): two changes per property; round 2
-(ids ending in r, plus C04a / C04b), rounds 3 and 4 (s, t), round 5 (u), round 6 (v) and a last round 7 (w, ten properties, after the
-mutation-driven strengthening of 12.3): one more per property each, with a different angle every time (round 5: the less-travelled
+Eight rounds were run. Round 1 (ids ending in a / b / c): two changes per property; round 2
+(ids ending in r, plus C04a / C04b), rounds 3 and 4 (s, t), round 5 (u), round 6 (v), round 7 (w, ten properties, after the
+mutation-driven strengthening of 12.3) and a last round 8 (y, fourteen properties, aimed at the less used options and entry points): one more per property each, with a different angle every time (round 5: the less-travelled
 methods; round 6: multi-step histories, second calls on the same object, cooperating
 sites), always after the misses of the round before had been repaired. In every case where
 a change was missed, the repair was to the *class* of input the harness never produced
@@ -44,7 +44,9 @@ concrete failing input for every seed, 7 after strengthening (C02u, C14u, C15u, 
 C14v, C13w, C18w; the classes were: mode pairings that only repeated extents make valid, data of
 magnitude 1e-9, a Kruskal tensor that is already symmetric, a right-hand-side object that
 is used twice in one history, holders whose modes share one array object, a direct L-BFGS-B solve from a start with
-non-unit weights, caller-given HOSVD ranks crossed with the verbosity levels). The complete
+non-unit weights, caller-given HOSVD ranks crossed with the verbosity levels). Round 8 (14 changes): 12 caught as built for every seed, 2 after
+strengthening (C06y: sub-tensor extraction with index lists that are not increasing was only sampled, now enumerated; C16y: sparse
+cases never stored an explicit zero, so a `-0.0` written as `0` was never generated - sparse cases now store zeros of either sign). The complete
 matrix was re-run on the current tree after round 5: it showed one change recorded as
 caught that was in fact caught only by luck of the sample (C01s; the Kruskal split point
 is now enumerated) and one change that no longer applies (C13s: the repair 6b9ef45
